@@ -55,17 +55,21 @@ def mk_graph_project(rng, depth=None):
             a = {"x": "<b>{{ z }}</b>", "w": 1}
         chain_args.append(a)
     meta["chain"] = chain_args
+    # the reference may be the very first item of the string (what it resolves to then *starts* the value: a number or boolean
+    # literal joined with the text that follows), the last one, or the only one
+    wraps = [rng.pick([(f"<{d}:", ">"), (f"<{d}:", ">"), ("", f" tail{d}"), ("", ""), (f"head{d} ", "")]) for d in range(depth)]
+    meta["wraps"] = wraps
     for l in locales:
         pairs = []
         if kind == "string":
-            tv = f"[{l}] x={{{{ x }}}} y={{{{ y }}}}!"
+            tv = rng.pick([f"[{l}] x={{{{ x }}}} y={{{{ y }}}}!", f"{{{{ x }}}} first, then [{l}] y={{{{ y }}}}"])
         elif kind == "comp":
             tv = f"[{l}] <b>x={{{{ x }}}}</b> <i>{{{{ x }}}}{{{{ y }}}}</i>"
         elif kind == "lit":
             tv = rng.pick([proj.U(7), True, "plain " + l])
         elif kind == "range":
             ty, specs, _ = RANGE_SHAPES[shape]
-            texts = [f"[{l}] zero {{{{ x }}}}", f"[{l}] few {{{{ count }}}} {{{{ x }}}}", f"[{l}] some <b>{{{{ y }}}}</b>", f"[{l}] lots {{{{ x }}}}{{{{ y }}}}"]
+            texts = [f"[{l}] zero {{{{ x }}}}", f"{{{{ count }}}} few [{l}] {{{{ x }}}}", f"[{l}] some <b>{{{{ y }}}}</b>", f"{{{{ x }}}}{{{{ y }}}} lots [{l}]"]
             tv = proj.A([ty] + [proj.A([texts[j % 4]] + list(sp)) for j, sp in enumerate(specs)] + [proj.A([f"[{l}] many {{{{ count }}}}"])])
         elif kind == "plural":
             tv = None
@@ -86,7 +90,8 @@ def mk_graph_project(rng, depth=None):
         for d, a in enumerate(chain_args):
             path = ((ns + ":") if ns else "") + prev
             w = rng.pick(["", " "])
-            text = f"<{d}:" + (f"$t({w}{path}{w})" if a is None else f"$t({path},{w}{json.dumps(a, ensure_ascii=False)}{w})") + ">"
+            pre, post = wraps[d]
+            text = pre + (f"$t({w}{path}{w})" if a is None else f"$t({path},{w}{json.dumps(a, ensure_ascii=False)}{w})") + post
             pairs.append((f"r{d + 1}", text))
             prev = f"r{d + 1}"
         files[(ns, l)] = proj.O(rng.shuffle(pairs))
@@ -278,7 +283,7 @@ def plural_fallback_family(rng, n):
             inherits[others[1]] = others[0]
         if len(others) > 2 and rng.chance(1, 2):
             inherits[others[2]] = rng.pick(others[:2])
-        counts = rng.sample([0, 1, 2, 3, 5, 11, 21, 100], 4)
+        counts = rng.sample([0, 1, 2, 3, 5, 11, 21, 100], 4) + rng.sample([1.5, 1.2, 0.7, 2.0], 1)      # a decimal too: some rules look at the fraction
         files, written = {}, {}
         for l in locs:
             pairs = []
@@ -289,7 +294,7 @@ def plural_fallback_family(rng, n):
             elif rng.chance(1, 4):
                 pairs.append(("files", None))
             for c in counts:
-                pairs.append((f"nf{c}", f"$t(files, {{\"count\": {c}}})."))
+                pairs.append(("nf" + str(c).replace(".", "_"), f"$t(files, {{\"count\": {c}}})."))
             files[(None, l)] = proj.O(rng.shuffle(pairs))
         out.append({"default": "en", "locales": locs, "all_locales": locs, "namespaces": None, "inherits": inherits, "files": files,
                     "extra_cfg": False, "meta": {}, "plural_family": {"written": written, "counts": counts}})
@@ -309,14 +314,16 @@ def plural_fallback_oracle(ctx, p, o, i):
         if src != l:
             ctx.count("plural-target-from-other-locale")
         for c in fam["counts"]:
-            cat = cats.get((l, "cardinal", f"u:{c}"))
+            opk = f"u:{c}" if isinstance(c, int) else "f:" + (repr(c)[:-2] if repr(c).endswith(".0") else repr(c))
+            cat = cats.get((l, "cardinal", opk))
             if cat is None:
                 raise HarnessError("no plural category for %s %s" % (l, c))
             form = cat if cat in fam["written"][src] else "other"
-            exp = f"[{src}] {form} {c}."
-            v = locale_value_at(ns_out, l, (f"nf{c}",))
+            shown = c if isinstance(c, int) else (repr(c)[:-2] if repr(c).endswith(".0") else repr(c))
+            exp = f"[{src}] {form} {shown}."
+            v = locale_value_at(ns_out, l, ("nf" + str(c).replace(".", "_"),))
             got = pv_eval(Env(), v) if v is not None else None
-            if cat != (cats.get((src, "cardinal", f"u:{c}"))):
+            if cat != (cats.get((src, "cardinal", opk))):
                 ctx.count("category-differs-between-locales")
             if got != exp:
                 report_violation(ctx, "foreign:literal-count-category-not-of-rendering-locale", {
@@ -428,8 +435,8 @@ def make_oracle(binp):
                 env = base
                 prefix, suffix = "", ""
                 for k in range(d, 0, -1):
-                    prefix += f"<{k - 1}:"
-                    suffix = ">" + suffix
+                    prefix += g["wraps"][k - 1][0]
+                    suffix = g["wraps"][k - 1][1] + suffix
                     env = subst_env(env, g["chain"][k - 1], parse_arg)
                 exp = prefix + pv_eval(env, tv) + suffix
                 if got != exp:
